@@ -338,15 +338,24 @@ class DefaultOperatorResolver(OperatorResolver):
             )
 
         def power(arg: OrderedSet[Term], power: OrderedSet[Term]) -> OrderedSet[Term]:
-            power_term = next(iter(power))
+            def is_positive_integer(expr: str) -> bool:
+                try:
+                    value = ast.literal_eval(expr)
+                except (SyntaxError, ValueError):
+                    return False
+                return isinstance(value, int) and value >= 1
+
+            power_term = next(iter(power), None)
             if (
-                not len(power_term.factors) == 1
+                power_term is None
+                or not len(power) == 1
+                or not len(power_term.factors) == 1
                 or not power_term.factors[0].token
                 or power_term.factors[0].token.kind is not Token.Kind.VALUE
-                or not isinstance(ast.literal_eval(power_term.factors[0].expr), int)
+                or not is_positive_integer(power_term.factors[0].expr)
             ):
                 raise exc_for_token(
-                    power_term.factors[0].token or Token(),
+                    (power_term and power_term.factors[0].token) or Token(),
                     "The right-hand argument of `**` must be a positive integer.",
                 )
             return OrderedSet(
